@@ -110,6 +110,8 @@ def c10_writers(ex, S, T):
         wakes = [k for k, e in enumerate(S.events) if e[0] == 'wake-publish']
         out.append(('wake-only-after-commit', all(commits and w > commits[0] for w in wakes)))
     tN = S.nows[-1]
+    if concrete:
+        tN = int(S.results[-1]['t1'])      # on the real run "right after the operation" starts at its measured end (every clock reading lies before it)
     t = z3.Int('probe_t')
     for i, p in enumerate(S.pre['Delivery']):
         q = S.post['Delivery'][i]
